@@ -40,7 +40,9 @@ fn run(ctx: &mut Ctx) {
             // definer: a file that defines every pending label
             // every label the file declares external (used or not) gets a definition
             let names: Vec<String> = { let mut v: Vec<String> = f.a.labels.iter().filter(|(_, (_, e))| *e).map(|(n, _)| n.clone()).collect(); v.sort(); v.dedup(); v };
-            let mut def_src = String::from(".orig x7000\n");
+            // the definitions sit at x7000.., or start at address 0 / 1 (0 is also the placeholder address of an external) or high in memory
+            let dorig: u16 = *rng.pick(&[0x7000u16, 0x7000, 0x0000, 0x0000, 0x0001, 0xFD00]);
+            let mut def_src = format!(".orig x{dorig:04X}\n");
             for (i, nme) in names.iter().enumerate() { def_src.push_str(&format!("{} .fill x{:04X}\n", recase(rng, nme), 0x1111 * (i as u16 + 1))); }
             def_src.push_str(".end\n");
             for debug in [true, false] {
@@ -68,12 +70,12 @@ fn run(ctx: &mut Ctx) {
                     let img = crate::asmutil::image_of(&linked);
                     let labels: std::collections::BTreeMap<String, u16> = linked.symbol_table().map(|s| s.label_iter().map(|(n, a, _)| (n.to_uppercase(), a)).collect()).unwrap_or_default();
                     let mut bad = None;
-                    for (a, l) in &f.a.relocs { let want = 0x7000 + names.iter().position(|n| n == l).unwrap() as u16; if img.get(a) != Some(&Some(want)) || labels.get(l) != Some(&want) { bad = Some((*a, l.clone(), want, img.get(a).copied())); break; } }
+                    for (a, l) in &f.a.relocs { let want = dorig + names.iter().position(|n| n == l).unwrap() as u16; if img.get(a) != Some(&Some(want)) || labels.get(l) != Some(&want) { bad = Some((*a, l.clone(), want, img.get(a).copied())); break; } }
                     if let Some((a, l, want, got)) = bad {
                         ctx.violation(&format!("linked-word-not-label-address:{tag}:{placement}"), format!("after linking (order {order}) the .fill {l} word at x{a:04X} is {got:X?}, expected x{want:04X}"), case()); continue;
                     }
                     match sim.load_obj_file(&linked) {
-                        Ok(()) => { if f.a.relocs.iter().all(|(a, l)| sim.mem[*a].get() == 0x7000 + names.iter().position(|n| n == l).unwrap() as u16) { ctx.count(&format!("linked-and-loaded.{tag}.order{order}")); } else { ctx.violation("loaded-word-differs", "memory after load differs from the linked image", case()); } }
+                        Ok(()) => { if f.a.relocs.iter().all(|(a, l)| sim.mem[*a].get() == dorig + names.iter().position(|n| n == l).unwrap() as u16) { ctx.count(&format!("linked-and-loaded.{tag}.order{order}")); if dorig == 0 { ctx.count("linked-and-loaded.definition-at-x0000"); } } else { ctx.violation("loaded-word-differs", "memory after load differs from the linked image", case()); } }
                         Err(e) => ctx.violation(&format!("resolved-file-does-not-load:{tag}"), format!("linked file fails to load: {e:?}"), case()),
                     }
                 }
@@ -83,7 +85,7 @@ fn run(ctx: &mut Ctx) {
                         match sim.load_obj_file(&l) {
                             Err(SimErr::UnresolvedExternal(_)) => ctx.count(&format!("partner-without-labels-refused.{tag}")),
                             Ok(()) => {
-                                let resolved = f.a.relocs.iter().all(|(a, l)| sim.mem[*a].get() == 0x7000 + names.iter().position(|n| n == l).unwrap() as u16);
+                                let resolved = f.a.relocs.iter().all(|(a, l)| sim.mem[*a].get() == dorig + names.iter().position(|n| n == l).unwrap() as u16);
                                 if resolved { ctx.count("partner-without-labels-resolved"); } else { ctx.violation(&format!("placeholder-loads-silently-after-link:{tag}"), "linking with a file without label table left the placeholder and loading succeeded", case()); }
                             }
                             Err(e) => ctx.violation("load-wrong-error", format!("{e:?}"), case()),
@@ -103,5 +105,6 @@ fn guard(m: &Merged, _t: Tier) -> Vec<String> {
         for o in 0..2 { need(m, &mut out, &format!("linked-and-loaded.{tag}.order{o}"), 50); }
         need(m, &mut out, &format!("partner-without-labels-refused.{tag}"), 20);
     }
+    need(m, &mut out, "linked-and-loaded.definition-at-x0000", 20);
     out
 }
